@@ -131,7 +131,7 @@ def fieldUses : Fields → List Stmt
   | .bare n r => .use (str "e") (title n) :: fieldUses r
   | .typed n _ r => .use (str "e") (title n) :: fieldUses r
 
-/-- the format string of `Error()` (main.go:126-133) -/
+/-- the format string of `Error()` (main.go:170-177) -/
 def errorFormat (fs : Fields) : Bytes :=
   str "(" ++ eachName (fun f last => title f ++ str ": %v" ++ (if last then [] else str ", ")) fs ++ str ")"
 
@@ -279,12 +279,12 @@ def descriptionValue (description : Bytes) : Bytes := description ++ [nl]
 def unquote (s : Bytes) : Bytes := (s.drop 1).dropLast
 
 /-- the file, given the results of the loops (source order of main.go) -/
-def assembleFile (t : Idl) (body : Bytes) (aliases errors clients : List Decl) (ifaceMethods : List IfaceMethod)
+def assembleFile (t : Idl) (aliases errors clients : List Decl) (ifaceMethods : List IfaceMethod)
     (errorReplies methodReplies dummies : List Decl) (cases : List Stmt) : GoFile :=
   let pkg := pkgName t.name
   let ifaceName := pkg ++ str "Interface"
   { pkg := pkg
-    imports := (importList body).map unquote
+    imports := (importList t).map unquote
     decls :=
       aliases ++ errors ++ [dispatchErrorView t.name t.errors] ++ clients
       ++ [.iface ifaceName ifaceMethods,
@@ -308,9 +308,9 @@ def genFile (t : Idl) : Option GoFile :=
         concatOptL (methodClientView t.name) t.methods, concatOptL ifaceMethodView t.methods,
         concatOptL (errorReplyView t.name) t.errors, concatOptL methodReplyView t.methods,
         concatOptL (dummyView t.name) t.methods, concatOptL (dispatchCaseView (pkgName t.name)) t.methods with
-  | some body, some aliases, some errors, some clients, some ifaceMethods, some errorReplies,
+  | some _, some aliases, some errors, some clients, some ifaceMethods, some errorReplies,
     some methodReplies, some dummies, some cases =>
-    some (assembleFile t body aliases errors clients ifaceMethods errorReplies methodReplies dummies cases)
+    some (assembleFile t aliases errors clients ifaceMethods errorReplies methodReplies dummies cases)
   | _, _, _, _, _, _, _, _, _ => none
 
 end Varlink.Gen
